@@ -213,4 +213,11 @@ def run(prog: Program, rep: Report, tier: str = "quick") -> None:
     rep.floor("R13.2", 9 * n)
     rep.floor("R13.2s", 3 * n)  # syntactic raise sites: a shared validator legitimately lowers the count
     rep.floor("R13.4", n)
+    from . import game
+    import re as _re
+
+    game.add_instances(rep, game.returns_job, [(i, tier, "R13.5") for i in range(n)], "R13.5", 70 * n)
+    _impl = r"(IndexError|KeyError|AttributeError|StopIteration|AssertionError)"
+    rep.arbitrate({"R13.1", "R13.2"}, "R13.5", "well-formed calls are accepted: no implicit exception on a valid game", pred=lambda i: _re.match(r"implicit " + _impl, i.construct) is not None)
+    rep.arbitrate({"R13.3"}, "R13.5", "well-formed calls are accepted: no implicit exception on a valid game", pred=lambda i: _re.search(r"well-formed call is \(or may be\) rejected by " + _impl, i.message) is not None)
     rep.not_decided = []
